@@ -1466,10 +1466,16 @@ impl Scenario for C15 {
                         probe::at(Box::leak(format!("wrap_and_sort+{row}").into_boxed_str()));
                         obs.prestate = "rebuilt-by-wrap_and_sort".into();
                         obs.count("op.wrap_then_set");
-                        match &mut vw {
+                        // what wrap_and_sort itself does (including whether the relation ordering it sorts long
+                        // dependency lists with is a total order: std's sort panics when it is not) is C07/C13, not claimed
+                        let wrapped = std::panic::catch_unwind(std::panic::AssertUnwindSafe(|| match &mut vw {
                             AnyView::CS(x) => x.wrap_and_sort(deb822_lossless::Indentation::Spaces(1), false, Some(79)),
                             AnyView::CB(x) => x.wrap_and_sort(deb822_lossless::Indentation::Spaces(1), false, Some(79)),
-                            _ => continue,
+                            _ => {}
+                        }));
+                        if wrapped.is_err() {
+                            obs.count("reach.wrap_and_sort_panicked");
+                            continue;
                         }
                         (rowdef.set)(&mut vw, arg);
                         let got = (rowdef.get)(&vw);
